@@ -130,6 +130,7 @@ TABLE = [
     ('R8', 'X.write_all(B) -> vio_write_all(&mut X, B)', re.compile(r'\b(self\.inner|inner|self\.dest)\.write_all\(([^;]*?)\)(\?|;|\s*$)', re.M), r'vio_write_all(&mut \1, \2)\3'),
     ('R8', 'D.write_all(B) -> vio_write_all(D, B)  (D: &mut W)', re.compile(r'\b(dest)\.write_all\(([^;]*?)\)(\?|;|\s*$)', re.M), r'vio_write_all(\1, \2)\3'),
     ('R11', 'X.write(&tag) -> X.write(tag.as_array())  (the deref coercion &Tag -> &[u8] of GenericArray, written out)', re.compile(r'\.write\(&(\w*tag\w*)\)'), r'.write(\1.as_array())'),
+    ('R14', 'map.entry(k).or_default() -> map.entry_or_default(k)  (std: the value at k, inserting the default when absent)', re.compile(r'\.entry\((\w+)\)\s*\.or_default\(\)'), r'.entry_or_default(\1)'),
     ('R11', 'cursor.get_mut().clear() -> cursor.vclear()', re.compile(r'\.get_mut\(\)\s*\.clear\(\)'), '.vclear()'),
     ('R10', 'X.read_u32::<LittleEndian>() -> vio_read_u32_le(X)', re.compile(r'\b(\w+)\.read_u32::<LittleEndian>\(\)'), r'vio_read_u32_le(\1)'),
     ('R10', 'X.read_u64::<LittleEndian>() -> vio_read_u64_le(X)', re.compile(r'\b(\w+)\.read_u64::<LittleEndian>\(\)'), r'vio_read_u64_le(\1)'),
